@@ -67,6 +67,12 @@ def priority(p):
 def binop_src(op, node):
     return op.join((node.left.src, node.right.src))
 
+def primary_src(node):
+    # the operand of an attribute reference, call or subscription must be a primary
+    if getattr(node, 'priority', 0) > 2 or isinstance(node, ast.Constant) and type(node.value) in (int, float, complex):
+        return '(%s)' % node.src
+    return node.src
+
 
 def ast2src(tree):
     src = getattr(tree, 'src', None)
@@ -106,8 +112,10 @@ class PythonTranslator(ASTTranslator):
         return 'if %s' % node.test.src
     def postExpr(translator, node):
         return node.value.src
+    @priority(15)
     def postIfExp(translator, node):
         return '%s if %s else %s' % (node.body.src, node.test.src, node.orelse.src)
+    @priority(16)
     def postLambda(translator, node):
         return 'lambda %s: %s' % (node.args.src, node.body.src)
     def postarguments(translator, node):
@@ -212,13 +220,13 @@ class PythonTranslator(ASTTranslator):
         return binop_src(' ** ', node)
     def postAttribute(translator, node):
         node.priority = 2
-        return '.'.join((node.value.src, node.attr))
+        return '.'.join((primary_src(node.value), node.attr))
     def postCall(translator, node):
         node.priority = 2
         if len(node.args) == 1 and isinstance(node.args[0], ast.GeneratorExp):
-            return node.func.src + node.args[0].src
+            return primary_src(node.func) + node.args[0].src
         args = [ arg.src for arg in node.args ] + [ kw.src for kw in node.keywords ]
-        return '%s(%s)' % (node.func.src, ', '.join(args))
+        return '%s(%s)' % (primary_src(node.func), ', '.join(args))
     def postkeyword(translator, node):
         if node.arg is None:
             return '**' + node.value.src
@@ -232,11 +240,12 @@ class PythonTranslator(ASTTranslator):
             x = x.value
         if isinstance(x, ast.Tuple):
             key = ', '.join([elt.src for elt in x.elts])
+            if len(x.elts) == 1: key += ','
         elif isinstance(x, ast.Constant) and isinstance(x.value, tuple):
             key = repr(x.value)[1:-1]
         else:
             key = x.src
-        return '%s[%s]' % (node.value.src, key)
+        return '%s[%s]' % (primary_src(node.value), key)
     def postIndex(translator, node):  # Python <= 3.7
         return node.value.src
     def postSlice(translator, node):
@@ -253,10 +262,13 @@ class PythonTranslator(ASTTranslator):
     def postConstant(translator, node):
         node.priority = 1
         value = node.value
+        s = repr(value)
         if type(value) is float: # for Python < 2.7
-            s = str(value)
-            if float(s) == value: return s
-        return repr(value)
+            s2 = str(value)
+            if float(s2) == value: s = s2
+        if type(value) in (int, float) and s.startswith('-'):
+            node.priority = 4  # rendered with a unary minus
+        return s
     def postNameConstant(translator, node):  # Python <= 3.7
         return repr(node.value)
     def postNum(translator, node):  # Python <= 3.7
